@@ -23,6 +23,15 @@ def run(patch, props, repo="/repo"):
             return "does-not-apply", {}
         pairs = ",".join("%s=%s" % (f, os.path.join(tmp, f)) for f in files if f.endswith(".go") and not f.endswith("_test.go") and os.path.exists(os.path.join(tmp, f)))
         out = {}
+        if len(props) > 1:
+            # one analyzer process for all properties: the program is loaded once (sa -prop A,B,... -no-evidence)
+            r = subprocess.run(["/verif/bin/sa", "-prop", ",".join(props), "-repo", repo, "-no-evidence", "-overlay", pairs], capture_output=True, text=True).stdout
+            for p in props:
+                mine = [l[len(p) + 3:] for l in r.splitlines() if l.startswith("[%s] " % p)]
+                out[p] = [l for l in mine if re.match(r"CONTROL-(FAIL|FLOOR)", l) and "registered-functions-stateless" not in l]
+                if not any("CONTROL-SUMMARY" in l for l in mine):
+                    out[p].append("CONTROL-FAIL analyzer did not complete: " + r[-300:].replace("\n", " | "))
+            return "ok", out
         for p in props:
             r = subprocess.run(["/verif/bin/sa", "-prop", p, "-repo", repo, "-no-evidence", "-overlay", pairs], capture_output=True, text=True).stdout
             out[p] = [l for l in r.splitlines() if re.match(r"CONTROL-(FAIL|FLOOR)", l) and "registered-functions-stateless" not in l]
